@@ -6,7 +6,7 @@
 patch="$(readlink -f "$1")"; shift
 prop="$1"; shift
 wt=/tmp/mut-$$
-git -C /repo worktree add -q --detach "$wt" HEAD || exit 3
+git -C /repo worktree add -q --detach "$wt" "${MUT_BASE:-HEAD}" || exit 3
 trap 'git -C /repo worktree remove --force "$wt"; rm -rf "$wt.replays"' EXIT
 git -C "$wt" apply "$patch" || { echo "patch does not apply"; exit 3; }
 cd /verif
